@@ -4,7 +4,13 @@
 use crate::src::Src;
 use crate::syntax::OpTable;
 
-pub const MULTIBYTE: [&str; 12] = ["é", "˱", "ß", "日", "本", "𝄞", "😀", "\u{a0}", "\u{2003}", "\u{3000}", "\u{85}", "\u{feff}"];
+/// the first NAME_START entries are not Unicode whitespace; among them characters with the Unicode
+/// properties a "tidied" character test would pick up: numeric (No, Nd, Nl), cased with a multi-character
+/// case mapping, titlecase, combining mark, zero-width
+pub const MULTIBYTE: [&str; 22] = [
+    "é", "˱", "ß", "日", "本", "𝄞", "😀", "²", "٣", "½", "２", "Ⅷ", "İ", "ǅ", "\u{301}", "\u{200b}", "\u{a0}", "\u{2003}", "\u{3000}", "\u{85}", "\u{feff}", "\u{1680}",
+];
+pub const NAME_START: usize = 16;
 pub const OTHER_FIRST: [&str; 10] = ["@", "~", "#", "$", "`", "\\", "_", ".", "é", "日"];
 pub const WS: [&str; 4] = [" ", "\t", "\r", "\n"];
 pub const ODD_WS: [&str; 4] = ["\u{b}", "\u{c}", "\u{a0}", "\u{2028}"];
